@@ -77,7 +77,7 @@ func (h *DirHandler) AddOut(msg *fbb.Message) error {
 		return err
 	}
 
-	return ioutil.WriteFile(path.Join(h.MBoxPath, DIR_OUTBOX, msg.MID()+Ext), data, 0644)
+	return writeFileAtomic(path.Join(h.MBoxPath, DIR_OUTBOX, msg.MID()+Ext), data, 0644)
 }
 
 func (h *DirHandler) ProcessInbound(msgs ...*fbb.Message) (err error) {
@@ -92,7 +92,7 @@ func (h *DirHandler) ProcessInbound(msgs ...*fbb.Message) (err error) {
 			return err
 		}
 
-		if err = ioutil.WriteFile(filename, data, 0664); err != nil {
+		if err = writeFileAtomic(filename, data, 0664); err != nil {
 			return fmt.Errorf("Unable to write received message (%s): %s", filename, err)
 		}
 	}
@@ -287,5 +287,22 @@ func SetUnread(msg *fbb.Message, unread bool) error {
 	if filePath == "" {
 		return fmt.Errorf("Missing X-FilePath header")
 	}
-	return ioutil.WriteFile(filePath, data, 0644)
+	return writeFileAtomic(filePath, data, 0644)
+}
+
+// writeFileAtomic writes data to a temporary file in the same directory and renames it to filename.
+//
+// A message file is never seen empty or truncated under its final name, even if the process dies while
+// writing. The temporary name does not end in Ext, so LoadMessageDir ignores a left-over temporary file.
+func writeFileAtomic(filename string, data []byte, perm os.FileMode) error {
+	tmp := filename + ".tmp"
+	if err := ioutil.WriteFile(tmp, data, perm); err != nil {
+		os.Remove(tmp)
+		return err
+	}
+	if err := os.Rename(tmp, filename); err != nil {
+		os.Remove(tmp)
+		return err
+	}
+	return nil
 }
